@@ -425,6 +425,17 @@ class FnIntervals:
                     break
                 parts.append('[%d]' % iv)
                 x = strip(kids(x)[0])
+            elif x['k'] == 'ArraySubscriptExpr' and 'bound' not in x and const(kids(x)[1]) is not None:
+                # `token[1]` through a pointer-to-const parameter that the function never re-points: the character is
+                # the same at every read (nothing in the function can store through a const pointer)
+                b = strip(kids(x)[0], casts=True)
+                tb = self.fn.type(b) or ''
+                if b['k'] == 'DeclRefExpr' and b.get('dk') == 'param' and tb.startswith('const ') and '*' in tb and \
+                        b['d'] not in self.__dict__.setdefault('_reparams', self._reassigned_params()):
+                    parts.append('[%d]' % const(kids(x)[1]))
+                    key = 'L:%d:%s' % (b['d'], ''.join(reversed(parts)))
+                    self.tracked.setdefault(key, t)
+                break
             elif x['k'] == 'DeclRefExpr' and x.get('dk') == 'local' and parts:
                 key = 'L:%d:%s' % (x['d'], ''.join(reversed(parts)))
                 self.tracked.setdefault(key, t)
@@ -566,6 +577,9 @@ class FnIntervals:
         if k == 'ConditionalOperator':
             return join(self.eval(c[1], st), self.eval(c[2], st))
         if k == 'ArraySubscriptExpr':
+            vid = self._vid(n)
+            if vid is not None:
+                return self.var(st, vid)
             base = strip(c[0])
             if base['k'] == 'DeclRefExpr' and base.get('dk') == 'global':
                 r = self.an.table_field_range(base['n'], None)
@@ -1200,7 +1214,7 @@ class FnIntervals:
             # condition, but by then the left operand is decided: the branch is on the rightmost operand
             while cond is not None:
                 cs_ = strip(cond)
-                if cs_['k'] == 'BinaryOperator' and cs_.get('op') in ('||', '&&') and b.get('termk') != 'BinaryOperator':
+                if cs_['k'] == 'BinaryOperator' and cs_.get('op') in ('||', '&&'):
                     cond = kids(cs_)[1]
                 else:
                     break
